@@ -163,6 +163,8 @@ def run(ck, prog):
 
     # ---- R19.4 -------------------------------------------------------------------
     doc_adjacency(ck, prog, eb)
+    # ---- R19.5 -------------------------------------------------------------------
+    doc_owner(ck, prog, eb)
 
 
 def _gates(prog, b):
@@ -349,3 +351,50 @@ def doc_adjacency(ck, prog, eb):
           msg="hover::extract_doc_comments collects comment lines without testing, for each line, that exactly one newline "
               "separates it from the line below (the test is %s): comment groups separated by blank lines are glued to the "
               "documentation" % ("made once outside the collection" if "nl1" in outer else "absent"))
+
+
+def doc_owner(ck, prog, eb):
+    """R19.5: the node whose leading comments are shown is the declaration the hovered name belongs to: the direct parent
+    of the name's Identifier node, or - for the name of a def, which is wrapped as Value > InnerValue > Identifier - the
+    third parent. A search upwards for "some declaration kind" is not that node for symbols whose declaration kind is not
+    in the searched list (template arguments, iterators, operator variables would show the enclosing record's comment)."""
+    ck.rule("R19.5", "the doc comment is read above the declaration that directly contains the hovered name")
+    ft = [(i, t) for i, t in eb.calls() if (Body.callee(t) or "").endswith("SyntaxNode::<L>::first_token")]
+    ck.anchor(ft, "extract_doc_comments: first_token() of the declaration node not found")
+
+    in_loop = set()
+    for _, bl in cfg.loops(eb):
+        in_loop |= set(bl)
+
+    def steps(op, stack=()):
+        """set of parent-step counts from the identifier node, or None if something other than a bounded number of
+        parent() calls is involved (the node variable is reassigned, so the flow-insensitive provenance of a parent() call
+        can contain itself: that is a repetition only if the call sits in a loop)"""
+        out = set()
+        for o in prov.origins(eb, op):
+            if o[0] != "call":
+                return None
+            name = str(o[1])
+            if name.endswith("SyntaxNode::<L>::parent"):
+                if o[2] in stack:
+                    if o[2] in in_loop:
+                        return None
+                    continue
+                if len(stack) > 8:
+                    return None
+                sub = steps(eb.term(o[2])["args"][0], stack + (o[2],))
+                if sub is None:
+                    return None
+                out |= {n + 1 for n in sub}
+            elif name.endswith("::into_node") or name.endswith("NodeOrToken<rowan::api::SyntaxNode<L>, rowan::api::SyntaxToken<L>>>::parent"):
+                out.add(0)              # the Identifier node itself (the covering element, or the parent of its Id token)
+            else:
+                return None
+        return out
+    for i, t in ft:
+        st = steps(t["args"][0])
+        ck.ob("R19.5", "doc-owner", st is not None and 1 in st and st <= {1, 3},
+              "the declaration node is the identifier's parent (3rd parent through Value > InnerValue): steps %s" % (sorted(st) if st else st),
+              msg="hover::extract_doc_comments takes the comment block of a node that is not reached from the hovered name by "
+                  "the fixed parent steps (1, or 3 through Value > InnerValue) [%s]: a search for an enclosing declaration "
+                  "attaches the enclosing record's comment to template arguments, iterators and operator variables" % eb.where(i))
